@@ -467,6 +467,15 @@ fn crl_from(s: &PoolSigner, o: &CrlO, big_serial: bool) -> Vec<u8> {
         number: if o.number { Some(42) } else { None }, unknown_ext: o.unknown_ext, ext_block: true })
 }
 
+fn show_ee(o: &EeO) -> String {
+    format!("ee{{aki={} basic={} keyUsage={} serial={} signed-by={} window={} ski={}}}", ["right", "absent", "wrong"][o.aki as usize], ["absent", "empty", "cA"][o.basic as usize],
+        o.key_usage as u8, if o.big_serial { "20-octet" } else { "small" }, if o.other_key { "other" } else { "peer" }, if o.wide { "wide" } else { "narrow" }, if o.ski_other { "other" } else { "key-hash" })
+}
+fn show_crl(o: &CrlO) -> String {
+    format!("crl{{aki={} number={} unknown-ext={} revoked={} signed-by={} window={}}}", ["right", "absent", "wrong"][o.aki as usize], o.number as u8, o.unknown_ext as u8,
+        ["empty", "absent", "others", "others+ext", "ee-only", "ee-first", "ee-middle", "ee-last"][o.revoked as usize], if o.other_key { "other" } else { "peer" }, if o.wide { "wide" } else { "narrow" })
+}
+
 fn within(wide: bool, off: i64) -> bool { let w = if wide { WIDE } else { NARROW }; -w <= off && off <= w }
 
 /// Certificates and CRLs are pure functions of a few plan fields: build each once.
@@ -883,7 +892,7 @@ fn main() {
                 let (stated, prof) = judge(e, c, off, true, true);
                 if !(stated && prof) { n += 1 }
                 let or = if stated { "C10.foreign.profile.reject" } else { "C10.foreign.product.reject" };
-                expect(&ctx, "C10.foreign.accept", or, stated && prof, &v, || format!("foreign order=ct,md,st extras=[] {e:?} {c:?} via={via:?} when=T0{off:+}s (narrow window = T0+-300 s, wide = T0+-1000 s)"));
+                expect(&ctx, "C10.foreign.accept", or, stated && prof, &v, || format!("foreign order=ct,md,st extras=[] {} {} via={via:?} when=T0{off:+}s (narrow=T0+-300s wide=T0+-1000s)", show_ee(e), show_crl(c)));
             }}
             sp.evals(18);
             *nt.lock().unwrap() += n;
@@ -915,8 +924,8 @@ fn main() {
                     let (stated, prof) = judge(e, c, 0, p.digest == DigestV::Ok && p.sig == SigV::Ok, p.prof == ProfV::Ok);
                     if !(stated && prof) { n += 1 }
                     let or = if stated { "C10.foreign.profile.reject" } else { "C10.foreign.product.reject" };
-                    expect(&ctx, "C10.foreign.accept", or, stated && prof, &v, || format!("foreign order={} extras={:?} st={} attrs-violated=[{}] {e:?} {c:?} via={via:?} when=T0",
-                        p.order.iter().map(|&i| ATTR_NAMES[i]).collect::<Vec<_>>().join(","), p.extras, if p.st_gen { "generalized" } else { "utc" }, p.violated().join(" ")));
+                    expect(&ctx, "C10.foreign.accept", or, stated && prof, &v, || format!("foreign order={} extras={:?} st={} attrs-violated=[{}] {} {} via={via:?} when=T0",
+                        p.order.iter().map(|&i| ATTR_NAMES[i]).collect::<Vec<_>>().join(","), p.extras, if p.st_gen { "generalized" } else { "utc" }, p.violated().join(" "), show_ee(e), show_crl(c)));
                 }
             }}
             sp.evals((ee_red.len() * crl_red.len() * 2) as u64);
@@ -929,7 +938,7 @@ fn main() {
         sp.set("crl_option_sets", serde_json::json!(crl_all.len()));
         sp.set("certificate_crl_pairs", serde_json::json!(pairs.len()));
         sp.set("attribute_settings", serde_json::json!(aplans.len()));
-        sp.sample_str(|| format!("foreign order=ct,md,st extras=[] {:?} {:?} via=Strict when=T0+301s -> rejected (CRL stale, EE certificate still valid)", EeO { wide: true, ..EE_BASE }, CrlO { aki: 1, ..CRL_BASE }));
+        sp.sample_str(|| format!("foreign order=ct,md,st extras=[] {} {} via=Strict when=T0+301s -> rejected (CRL stale, EE certificate still valid)", show_ee(&EeO { wide: true, ..EE_BASE }), show_crl(&CrlO { aki: 1, ..CRL_BASE })));
         sp.done(true, &format!("{} (EE, CRL) option pairs x 9 instants x 2 decoders; {} attribute settings x {} x {} reduced menus x 2 decoders", pairs.len(), aplans.len(), ee_red.len(), crl_red.len()));
     }
 
